@@ -312,6 +312,16 @@ def castlePattern (r : Rng) : APos × Rng :=
       | some f => if f ≤ 6 then place b (sq ((f + 1 + shd % (7 - f) : Nat) : Int) hrm) pc else b
       | none => b
     else b
+  -- an enemy rook standing on the (default) home square of a castling rook whose right the mover no longer holds, the mover's king
+  -- possibly next to it (king takes rook on a castling-rook square while the OTHER right is still held)
+  let (cr, r) := r.below 2
+  let b :=
+    if cr == 0 then
+      let hrm := homeRank w
+      let (oK, oQ) := if w then (wK, wQ) else (bK, bQ)
+      let b := if oK.isNone then place b (sq 7 hrm) ⟨!w, .rook⟩ else b
+      if oQ.isNone then place b (sq 0 hrm) ⟨!w, .rook⟩ else b
+    else b
   -- hazards around the mover's back rank
   let hr := homeRank w
   let (nh, r) := r.below 3
@@ -440,7 +450,49 @@ def promoPattern (r : Rng) : APos × Rng :=
                     ep := none, half := 0, full := 1 }
   (freeze a, r)
 
-/-- `n` accepted pattern positions (kind: 0 castling, 1 en passant, 2 promotion). -/
+/-- pin patterns: the mover's king with own pieces (queens often) pinned along several of the eight lines at once, the pinning
+sliders at varying distances; a few fillers. -/
+def pinPattern (r : Rng) : APos × Rng :=
+  let (wtm, r) := r.below 2
+  let w := wtm == 0
+  let (kf0, r) := r.below 8
+  let (kr0, r) := r.below 8
+  let kf : Int := kf0
+  let kr : Int := kr0
+  let b : Placement := place [] (sq kf kr) ⟨w, .king⟩
+  let dirs : List (Int × Int) := [(1, 0), (-1, 0), (0, 1), (0, -1), (1, 1), (1, -1), (-1, 1), (-1, -1)]
+  let rec lines (ds : List (Int × Int)) (b : Placement) (r : Rng) : Placement × Rng :=
+    match ds with
+    | [] => (b, r)
+    | (df, dr) :: ds =>
+      let (use, r) := r.below 2
+      let (d1, r) := r.below 3
+      let (gap, r) := r.below 3
+      let (pk, r) := r.below 10
+      let (sk, r) := r.below 2
+      if use == 0 then lines ds b r
+      else
+        let a : Int := (d1 : Int) + 1
+        let e : Int := a + (gap : Int) + 1
+        let (f1, r1, f2, r2) := (kf + df * a, kr + dr * a, kf + df * e, kr + dr * e)
+        if onBoard f1 r1 && onBoard f2 r2 then
+          let own : Kind := if pk < 4 then .queen else if pk < 6 then .rook else if pk < 8 then .bishop else if pk < 9 then .knight else .pawn
+          let own : Kind := if own == .pawn && (r1 == 0 || r1 == 7) then .queen else own
+          let orth := df == 0 || dr == 0
+          let sl : Kind := if sk == 0 then .queen else if orth then .rook else .bishop
+          lines ds (place (place b (sq f1 r1) ⟨w, own⟩) (sq f2 r2) ⟨!w, sl⟩) r
+        else lines ds b r
+  let (b, r) := lines dirs b r
+  let (of, r) := r.below 8
+  let (orr, r) := r.below 8
+  let b := place b (sq of orr) ⟨!w, .king⟩
+  let b := if b.any (fun x => x.2 == ⟨!w, .king⟩) then b else place b (sq ((of + 3) % 8) ((orr + 5) % 8)) ⟨!w, .king⟩
+  let (nf, r) := r.below 4
+  let (b, r) := fillers nf b r
+  let a : APos := { board := boardOf b, whiteToMove := w, wK := none, wQ := none, bK := none, bQ := none, ep := none, half := 0, full := 1 }
+  (freeze a, r)
+
+/-- `n` accepted pattern positions (kind: 0 castling, 1 en passant, 2 promotion, 3 pins). -/
 def patterns (kind : Nat) (n : Nat) (r : Rng) (frc : Bool) : List Position :=
   let rec go (fuel : Nat) (n : Nat) (acc : List Position) (r : Rng) : List Position :=
     match fuel, n with
@@ -450,7 +502,8 @@ def patterns (kind : Nat) (n : Nat) (r : Rng) (frc : Bool) : List Position :=
       let (a, r) := match kind with
         | 0 => castlePattern r
         | 1 => epPattern r
-        | _ => promoPattern r
+        | 2 => promoPattern r
+        | _ => pinPattern r
       if Spec.Valid a && Spec.EpConsistent a then go fuel n (rel a frc :: acc) r
       else go fuel (n + 1) acc r
   go (n * 60) n [] r
